@@ -142,7 +142,7 @@ err_t bignKeyWrap(octet token[], const bign_params* params, const octet key[],
 static size_t bignKeyUnwrap_deep(size_t n, size_t f_deep, size_t ec_d,
 	size_t ec_deep)
 {
-	return MAX2(O_OF_W(5 * n), 32 + 16) +
+	return MAX2(O_OF_W(5 * n), 32 + 32) +
 		utilMax(3,
 			beltKWP_keep(),
 			qrPower_deep(n, n, f_deep),
@@ -163,6 +163,7 @@ err_t bignKeyUnwrap(octet key[], const bign_params* params, const octet token[],
 	word* t2;				/* [n] вспомогательное число */
 	octet* theta;			/* [32] ключ защиты */
 	octet* header2;			/* [16] заголовок2 */
+	octet* header1;			/* [16] копия header */
 	void* stack;			/* граница стека */
 	// проверить params
 	if (!memIsValid(params, sizeof(bign_params)))
@@ -204,10 +205,11 @@ err_t bignKeyUnwrap(octet key[], const bign_params* params, const octet token[],
 	t2 = t1 + n;
 	theta = (octet*)d;
 	header2 = theta + 32;
-	if (5 * no >= 48)
+	header1 = header2 + 16;
+	if (5 * no >= 64)
 		stack = t2 + n;
 	else
-		stack = header2 + 16;
+		stack = header1 + 16;
 	// загрузить d
 	wwFrom(d, privkey, no);
 	if (wwIsZero(d, n) || wwCmp(d, ec->order, n) >= 0)
@@ -248,14 +250,18 @@ err_t bignKeyUnwrap(octet key[], const bign_params* params, const octet token[],
 	// theta <- <R>_{256}
 	qrTo(theta, ecX(R), ec->f, stack);
 	// сформировать данные для расшифрования
-	memCopy(key, token + no, len - no - 16);
+	// (буферы key, header и token могут пересекаться)
 	memCopy(header2, token + len - 16, 16);
+	if (header)
+		memCopy(header1, header, 16);
+	else
+		memSetZero(header1, 16);
+	memMove(key, token + no, len - no - 16);
 	// расшифровать
 	beltKWPStart(stack, theta, 32);
 	beltKWPStepD2(key, header2, len - no, stack);
 	// проверить целостность
-	if (header && !memEq(header, header2, 16) ||
-		header == 0 && !memIsZero(header2, 16))
+	if (!memEq(header1, header2, 16))
 	{
 		memSetZero(key, len - no - 16);
 		code = ERR_BAD_KEYTOKEN;
